@@ -82,12 +82,52 @@ UTIL_RETURN = {  # utils/states.py gaussian-basis helpers: returned [means, cov]
 }
 
 
+_TW_CACHE: Dict[str, Optional[bool]] = {}
+
+
+def _thewalrus_takes_hbar(dotted_name: str) -> Optional[bool]:
+    """does the thewalrus function have an `hbar` parameter?  Decided by parsing the installed library's source
+    (never imported); None if the definition cannot be found"""
+    if dotted_name in _TW_CACHE:
+        return _TW_CACHE[dotted_name]
+    import glob
+    import os
+    parts = dotted_name.split(".")
+    fn = parts[-1]
+    res = None
+    roots = glob.glob("/venv/lib/python3*/site-packages/thewalrus") + glob.glob("/usr/lib/python3*/site-packages/thewalrus")
+    for root in roots:
+        for path in glob.glob(os.path.join(root, "**", "*.py"), recursive=True):
+            try:
+                with open(path, encoding="utf-8") as fh:
+                    src = fh.read()
+                if f"def {fn}(" not in src:
+                    continue
+                t = ast.parse(src)
+            except (OSError, SyntaxError):
+                continue
+            for n in ast.walk(t):
+                if isinstance(n, ast.FunctionDef) and n.name == fn:
+                    names = [a.arg for a in n.args.args + n.args.kwonlyargs]
+                    res = "hbar" in names
+                    break
+            if res is not None:
+                break
+        if res is not None:
+            break
+    _TW_CACHE[dotted_name] = res
+    return res
+
+
 def _is_thewalrus(tree, module, call: ast.Call) -> bool:
+    """a call of a thewalrus function that has an hbar parameter"""
     cn = dotted(call.func)
     if not cn:
         return False
     r = tree.resolve_dotted(module, cn)
-    return bool(r and r[0] == "external" and r[1].startswith("thewalrus"))
+    if not (r and r[0] == "external" and r[1].startswith("thewalrus")):
+        return False
+    return _thewalrus_takes_hbar(r[1]) is True
 
 
 class Scope:
@@ -481,6 +521,9 @@ def _local_call_dims(ctx, module, decls):
     def call_dims(n, ev, at):
         cn = dotted(n.func) or ""
         last = cn.split(".")[-1]
+        if last == "reduced_gaussian" and len(n.args) >= 2:
+            # thewalrus.quantum.reduced_gaussian(mu, cov, modes) slices: the parts keep the powers of the whole
+            return (ev.ev(n.args[0], at), ev.ev(n.args[1], at))
         if cn in rets:
             return rets[cn]
         if last in rets and (cn.startswith("self.") or "." not in cn):
